@@ -45,7 +45,8 @@ def env():
     if _env is None:
         b = bot.full(plugins=())
         clk = Clock()
-        time.time = lambda: float(clk.t)
+        clk.real = time.time
+        clk.virtual = lambda: float(clk.t)
         _env = (b, clk)
     return _env
 
@@ -100,6 +101,7 @@ class Impl(object):
     and evaluates the property statement (oracle) on what it sees"""
     def __init__(self):
         self.b, self.clk = env()
+        time.time = self.clk.virtual       # virtual clock while a case runs (restored in close())
         self.irc = None
         self.rules = []
         self.cfg = (0, 0, False, True, 120)
@@ -202,6 +204,7 @@ class Impl(object):
             self.note_accept(m)
 
     def close(self):
+        time.time = self.clk.real
         w = self.b.world
         if self.irc is not None and self.irc in w.ircs:
             w.ircs.remove(self.irc)
